@@ -271,21 +271,54 @@ Proof.
   apply andb_true_iff in P as [P _]. exact P.
 Qed.
 
+(** ---- inversion of the converters (the binds are rewritten, never converted: the kernel would otherwise unfold
+    [dt_add_us] on symbolic fields) ---- *)
+Lemma bind_OK {A B} (a : A) (f : A -> result B) : bind (OK a) f = f a.
+Proof. reflexivity. Qed.
+Definition conv_fields (y mo d : N) (t : N * N * N) (ms : N) : dtf :=
+  let '(h, mi, sec) := t in
+  mkdtf (Z.of_N y) (Z.of_N mo) (Z.of_N d) (Z.of_N h) (Z.of_N mi) (Z.of_N sec) (Z.of_N (1000 * ms)).
+Lemma dt_convert_inv s f : dt_convert zeros tzs s = OK f ->
+  exists g off, match_dt zeros (strip_nl s) = Some g /\ parse_gmt_offset true zeros tzs (g_br g) = OK off
+    /\ valid_fields (conv_fields (g_y g) (g_mo g) (g_d g) (groups_time g) (groups_ms g)) = true
+    /\ dt_add_us (conv_fields (g_y g) (g_mo g) (g_d g) (groups_time g) (groups_ms g)) (- off * 1000000)%Z = OK f.
+Proof.
+  unfold dt_convert, dt_convert_gen. intro C.
+  destruct (match_dt zeros (strip_nl s)) as [g|]; [|discriminate].
+  destruct (parse_gmt_offset true zeros tzs (g_br g)) as [off|] eqn:PO; [|discriminate].
+  exists g, off. split; [reflexivity|]. split; [exact PO|].
+  unfold conv_fields. destruct (groups_time g) as [[h mi] sec]. rewrite bind_OK in C. unfold mk_datetime in C.
+  destruct (valid_fields _); [|discriminate]. rewrite bind_OK in C. split; [reflexivity|]. exact C.
+Qed.
+Lemma tm_convert_inv s f : tm_convert zeros tzs s = OK f ->
+  exists h mi sec ms br off g,
+    match_hms zeros (strip_nl s) = Some (h, mi, sec, ms, br) /\ parse_gmt_offset true zeros tzs br = OK off
+    /\ valid_fields (conv_fields 1999 6 8 (h, mi, sec) (match ms with Some n => n | None => 0 end)) = true
+    /\ dt_add_us (conv_fields 1999 6 8 (h, mi, sec) (match ms with Some n => n | None => 0 end)) (- off * 1000000)%Z = OK g
+    /\ f = mkdtf 0 0 0 (f_h g) (f_mi g) (f_s g) (f_us g).
+Proof.
+  unfold tm_convert, tm_convert_gen, match_time. intro C.
+  destruct (match_hms zeros (strip_nl s)) as [[[[[h mi] sec] ms] br]|]; [|discriminate]. cbn [g_br] in C.
+  destruct (parse_gmt_offset true zeros tzs br) as [off|] eqn:PO; [|discriminate]. rewrite bind_OK in C.
+  unfold groups_time, groups_ms in C. cbn [g_time g_ms] in C. unfold mk_datetime in C. unfold conv_fields. cbv beta iota.
+  match type of C with context [valid_fields ?x] => destruct (valid_fields x) eqn:V end; [|discriminate]. rewrite bind_OK in C.
+  match type of C with context [dt_add_us ?x ?y] => destruct (dt_add_us x y) as [g|] eqn:AD end; [|discriminate].
+  unfold rmap in C. apply OK_inj in C.
+  exists h, mi, sec, ms, br, off, g. split; [reflexivity|]. split; [exact PO|]. split; [exact V|]. split; [exact AD|].
+  symmetry. exact C.
+Qed.
+
 (** ---- the two theorems ---- *)
 Theorem tm_accepts_only_l s f : plain_digits zeros s = true ->
   tm_convert zeros tzs s = OK f -> denote_tm tzs s = Some (tod_us f).
 Proof.
   intros P C. unfold denote_tm. rewrite chomp_is_strip_nl. apply plain_strip in P.
-  unfold tm_convert, tm_convert_gen, match_time in C. set (s' := strip_nl s) in *.
-  destruct (match_hms zeros s') as [[[[[h mi] sec] ms] br]|] eqn:MH; [|discriminate]. cbn [g_br] in C.
-  destruct (parse_gmt_offset true zeros tzs br) as [off|] eqn:PO; [|discriminate]. cbn [bind] in C.
-  unfold groups_time, groups_ms in C. cbn [g_time g_ms] in C. unfold mk_datetime in C.
+  destruct (tm_convert_inv s f C) as (h & mi & sec & ms & br & off & g & MH & PO & V & AD & ->).
+  unfold conv_fields in *.
   set (v := mkdtf (Z.of_N 1999) (Z.of_N 6) (Z.of_N 8) (Z.of_N h) (Z.of_N mi) (Z.of_N sec)
                   (Z.of_N (1000 * match ms with Some n => n | None => 0 end))) in *.
-  destruct (valid_fields v) eqn:V; [|discriminate]. cbn [bind] in C.
-  destruct (dt_add_us v (- off * 1000000)%Z) as [g|] eqn:AD; [|discriminate]. cbn [rmap] in C. apply OK_inj in C. subst f.
   pose proof V as V'. apply valid_fields_iff in V'. unfold v in V'. cbn [f_y f_mo f_d f_h f_mi f_s f_us] in V'.
-  rewrite (match_hms_denote s' h mi sec ms br off P MH ltac:(lia) PO). f_equal.
+  rewrite (match_hms_denote _ h mi sec ms br off P MH ltac:(lia) PO). f_equal.
   destruct (dt_add_us_inv _ _ _ AD) as [RG UG].
   assert (VG : valid_fields g = true).
   { unfold dt_add_us in AD. destruct ((0 <=? us_of_fields v + - off * 1000000)%Z && (us_of_fields v + - off * 1000000 <? MAXORDINAL * US_DAY)%Z); [|discriminate].
@@ -331,19 +364,16 @@ Theorem dt_accepts_only_l s f : plain_digits zeros s = true ->
   dt_convert zeros tzs s = OK f -> denote_dt tzs s = Some (us_of_fields f).
 Proof.
   intros P C. apply plain_strip in P.
-  unfold dt_convert, dt_convert_gen in C.
-  destruct (match_dt zeros (strip_nl s)) as [g|] eqn:MD; [|discriminate].
-  destruct (parse_gmt_offset true zeros tzs (g_br g)) as [off|] eqn:PO; [|discriminate]. cbn [bind] in C.
+  destruct (dt_convert_inv s f C) as (g & off & MD & PO & V & AD).
   destruct (match_dt_shape zeros _ g MD) as (r & ES & Y & MO & D & TM).
   rewrite (denote_dt_unfold s (g_y g) (g_mo g) (g_d g) r) by (try rewrite chomp_is_strip_nl; try exact ES; lia).
   rewrite ES in P. cbn [d4 d2 app] in P. rewrite !plain_cons in P. do 8 (apply andb_true_iff in P as [_ P]).
-  unfold groups_time, groups_ms, mk_datetime in C.
+  destruct (dt_add_us_inv _ _ _ AD) as [RG UG].
+  unfold groups_time, groups_ms, conv_fields in *.
   destruct (g_time g) as [[[h mi] sec]|] eqn:GT.
   - destruct TM as [RNE MH].
     set (v := mkdtf (Z.of_N (g_y g)) (Z.of_N (g_mo g)) (Z.of_N (g_d g)) (Z.of_N h) (Z.of_N mi) (Z.of_N sec)
                     (Z.of_N (1000 * match g_ms g with Some n => n | None => 0 end))) in *.
-    destruct (valid_fields v) eqn:V; [|discriminate]. cbn [bind] in C.
-    destruct (dt_add_us_inv _ _ _ C) as [RG UG].
     pose proof V as V'. apply valid_fields_iff in V'. unfold v in V'. cbn [f_y f_mo f_d f_h f_mi f_s f_us] in V'.
     rewrite <- civil_dim_is_days_in_month in V' by lia.
     match goal with |- (if ?b then _ else _) = _ => destruct b eqn:G end; [lia|]. cbv zeta.
@@ -357,10 +387,8 @@ Proof.
     match goal with |- (if ?b then _ else _) = _ => destruct b eqn:RB end.
     + f_equal. lia.
     + exfalso. rewrite EU in RG. lia.
-  - destruct TM as (-> & GM & GB). rewrite GM in C. rewrite GB in PO. cbn in PO. apply OK_inj in PO. subst off.
+  - destruct TM as (-> & GM & GB). rewrite GM in *. rewrite GB in PO. cbn in PO. apply OK_inj in PO. subst off.
     set (v := mkdtf (Z.of_N (g_y g)) (Z.of_N (g_mo g)) (Z.of_N (g_d g)) (Z.of_N 0) (Z.of_N 0) (Z.of_N 0) (Z.of_N (1000 * 0))) in *.
-    destruct (valid_fields v) eqn:V; [|discriminate]. cbn [bind] in C.
-    destruct (dt_add_us_inv _ _ _ C) as [RG UG].
     pose proof V as V'. apply valid_fields_iff in V'. unfold v in V'. cbn [f_y f_mo f_d f_h f_mi f_s f_us] in V'.
     rewrite <- civil_dim_is_days_in_month in V' by lia.
     match goal with |- (if ?b then _ else _) = _ => destruct b eqn:G end; [lia|]. cbv zeta.
